@@ -526,6 +526,24 @@ fn live_protocol(ex: &mut Ex, rng: &mut Rng, live: &Live, n: u64) {
         ex.run("endpoint:rfc6492(parent)", origin, &bytes, || sys.krill.ca_manager().rfc6492(&parent, b, Some("c16".into()), &sys.actor, &sys.krill).is_ok());
     }
 
+    // Regression scenario for F04a (DESIGN section 6): a class-name mapping whose name_in_parent does not exist,
+    // then a validly signed revoke for the class the child really holds - apply() used to unwrap a missing class.
+    {
+        let parent_json = to_v(&*sys.ca("parent").expect("parent"));
+        let used: Vec<String> = find_obj_with_key(&parent_json, "used_keys").and_then(|o| o["used_keys"].as_object().map(|m| m.keys().cloned().collect())).unwrap_or_default();
+        let _ = sys.child_rcn_mapping("parent", "child", "9", "0");
+        for k in used.iter().take(2) {
+            if let Ok(ki) = rpki::crypto::KeyIdentifier::from_str(k) {
+                for class in ["0", "9"] {
+                    let msg = provisioning::Message::revoke(sender.clone(), recipient.clone(), provisioning::RevocationRequest::new(class.into(), ki));
+                    let bytes = signer.create_rfc6492_cms(msg, &key).expect("sign").to_bytes().to_vec();
+                    let b = Bytes::from(bytes.clone());
+                    ex.run("endpoint:rfc6492(parent)", "revoke-with-dangling-class-mapping", &bytes, || sys.krill.ca_manager().rfc6492(&parent, b, None, &sys.actor, &sys.krill).is_ok());
+                }
+            }
+        }
+    }
+
     // RFC 8181
     let publisher = publisher_handle("child");
     let jail = "rsync://localhost/repo/child/";
@@ -626,8 +644,10 @@ pub fn http_fuzz(args: &Args, rng: &mut Rng, n: u64) -> Explore {
         "/api/v1/cas/testbed/routes", "/api/v1/cas/testbed/routes/analysis/full", "/api/v1/cas/testbed/children/x/contact", "/api/v1/cas/testbed/history/commands/10/0/1/2",
         "/api/v1/cas/testbed/history/details/1", "/api/v1/cas/testbed/parents/ta", "/api/v1/cas/testbed/repo/status", "/api/v1/cas/testbed/id/child_request.xml", "/api/v1/cas/ta",
         "/api/v1/pubd/publishers", "/api/v1/pubd/publishers/testbed/response.xml", "/api/v1/pubd/stale/10", "/api/v1/ta/proxy/id", "/api/v1/bulk/cas/sync/parent",
-        "/rfc6492/testbed", "/rfc8181/testbed", "/rrdp/notification.xml", "/ta/ta.cer", "/ta/ta.tal", "/testbed.tal", "/testbed/enabled", "/testbed/children", "/testbed/children/x/parent_response.xml",
-        "/testbed/publishers", "/testbed/publishers/x/response.xml", "/ui/index.html", "/auth/login"].iter().map(|s| s.to_string()).collect();
+        "/rfc6492/testbed", "/rfc8181/testbed", "/rfc6492/ta", "/rfc8181/ta", "/rrdp/notification.xml", "/ta/ta.cer", "/ta/ta.tal", "/testbed.tal", "/testbed/enabled", "/testbed/children", "/testbed/children/x/parent_response.xml",
+        "/testbed/publishers", "/testbed/publishers/x/response.xml", "/ui/index.html", "/auth/login",
+        // corpus: routes on which an earlier run of this fuzzer found a panic (F16c/F16d, fixed in 27402048)
+        "/testbed/publishers/a%5Cb/response.xml", "/api/v1/pubd/publishers/a%5Cb/response.json", "/api/v1/cas/a%5Cb/children/x/contact", "/api/v1/cas/a%5Cb/children/x/parent_response.xml"].iter().map(|s| s.to_string()).collect();
     for i in 0..n {
         // path
         let path: String = if (i as usize) < seeds.len() { seeds[i as usize].clone() } else if rng.chance(55) {
@@ -649,9 +669,12 @@ pub fn http_fuzz(args: &Args, rng: &mut Rng, n: u64) -> Explore {
             let segs: Vec<String> = (0..len).map(|_| if rng.chance(80) { rng.pick(&SEGMENTS).to_string() } else { rng.pick(&ODD_SEGMENTS).to_string() }).collect();
             format!("/{}{}", segs.join("/"), if rng.chance(15) { "?x=%E2%82%AC&y" } else { "" })
         };
-        let method = *rng.pick(&["GET", "GET", "GET", "GET", "POST", "POST", "DELETE", "PUT", "HEAD"]);
-        let auth = match rng.below(10) { 0 => "", 1 => "Authorization: Bearer wrong\r\n", 2 => "Authorization: Basic Zm9vOmJhcg==\r\n", _ => "Authorization: Bearer secret\r\n" };
-        let ua: Vec<u8> = match rng.below(6) { 0 => Vec::new(), 1 => format!("User-Agent: {}\r\n", "u".repeat(rng.range(250, 300) as usize)).into_bytes(),
+        let first_pass = (i as usize) < seeds.len();
+        let method = if first_pass { "GET" } else { *rng.pick(&["GET", "GET", "GET", "GET", "POST", "POST", "DELETE", "PUT", "HEAD"]) };
+        let auth = match if first_pass { 9 } else { rng.below(10) } { 0 => "", 1 => "Authorization: Bearer wrong\r\n", 2 => "Authorization: Basic Zm9vOmJhcg==\r\n", _ => "Authorization: Bearer secret\r\n" };
+        let ua: Vec<u8> = match rng.below(7) { 0 => Vec::new(), 1 => format!("User-Agent: {}\r\n", "u".repeat(rng.range(250, 300) as usize)).into_bytes(),
+            // multi-byte characters around the truncation offset 256 (obs-text bytes are legal in a header value)
+            6 => format!("User-Agent: {}{}\r\n", "x".repeat(rng.below(3) as usize), "\u{20ac}".repeat(rng.range(84, 100) as usize)).into_bytes(),
             2 => { let mut v = b"User-Agent: k\xe2\x82\xac".to_vec(); v.extend(std::iter::repeat_n(b'x', rng.range(250, 260) as usize)); v.extend_from_slice(b"\r\n"); v }
             _ => b"User-Agent: c16\r\n".to_vec() };
         let body = if method == "POST" || method == "PUT" { let b = rng.pick(&bodies).clone(); if rng.chance(40) { mutate(rng, &b) } else { b } } else { String::new() };
@@ -665,12 +688,41 @@ pub fn http_fuzz(args: &Args, rng: &mut Rng, n: u64) -> Explore {
         let after = crate::PANIC_COUNT.load(std::sync::atomic::Ordering::SeqCst);
         ex.n += 1;
         let origin = if (i as usize) < seeds.len() { "seed-route" } else { "mutated-route" };
+        if std::env::var("C16_HTTP_DEBUG").is_ok() && (i as usize) < seeds.len() { eprintln!("http {method} {path} -> {status:?} panics {}", after - before); }
         if after != before {
             let (msg, site) = crate::LAST_PANIC.lock().unwrap_or_else(|e| e.into_inner()).clone().unwrap_or_else(|| ("<no message>".into(), "?".into()));
             ex.panic("http:daemon", origin, &raw, Caught { msg, site });
         } else {
             let outcome = match status { Some(c) => format!("{}xx", c / 100), None => "no-response".into() };
             *ex.dist.entry("http:daemon".into()).or_default().entry(origin.into()).or_default().entry(outcome).or_default() += 1;
+        }
+    }
+    // the unauthenticated protocol endpoints: POST with every user-agent shape (the value is truncated at byte 256,
+    // request.rs:119-133) and arbitrary bodies
+    let uas: Vec<Vec<u8>> = vec![
+        Vec::new(), b"User-Agent: rpkid\r\n".to_vec(), format!("User-Agent: {}\r\n", "u".repeat(255)).into_bytes(), format!("User-Agent: {}\r\n", "u".repeat(256)).into_bytes(),
+        format!("User-Agent: {}\r\n", "u".repeat(257)).into_bytes(), format!("User-Agent: {}\r\n", "\u{20ac}".repeat(86)).into_bytes(), format!("User-Agent: x{}\r\n", "\u{20ac}".repeat(90)).into_bytes(),
+        format!("User-Agent: xx{}\r\n", "\u{e9}".repeat(200)).into_bytes(), { let mut v = b"User-Agent: ".to_vec(); v.extend(std::iter::repeat_n(0xffu8, 300)); v.extend_from_slice(b"\r\n"); v },
+        b"User-Agent: a\tb\r\n".to_vec(),
+    ];
+    for (k, ua) in uas.iter().enumerate() {
+        for path in ["/rfc6492/testbed", "/rfc6492/testbed/", "/rfc8181/testbed", "/rfc6492/a%5Cb", "/rfc8181/%E2%82%AC"] {
+            let body: Vec<u8> = (0..rng.below(200)).map(|_| rng.below(256) as u8).collect();
+            let mut raw = format!("POST {path} HTTP/1.1\r\nHost: localhost\r\nConnection: close\r\n").into_bytes();
+            raw.extend_from_slice(ua);
+            raw.extend_from_slice(format!("Content-Type: application/rpki-updown\r\nContent-Length: {}\r\n\r\n", body.len()).as_bytes());
+            raw.extend_from_slice(&body);
+            let before = crate::PANIC_COUNT.load(std::sync::atomic::Ordering::SeqCst);
+            let status = http(port, &raw);
+            let after = crate::PANIC_COUNT.load(std::sync::atomic::Ordering::SeqCst);
+            ex.n += 1;
+            if after != before {
+                let (msg, site) = crate::LAST_PANIC.lock().unwrap_or_else(|e| e.into_inner()).clone().unwrap_or_else(|| ("<no message>".into(), "?".into()));
+                ex.panic("http:daemon", "protocol-endpoint-post", &raw, Caught { msg, site });
+            } else {
+                let outcome = match status { Some(c) => format!("{}xx", c / 100), None => "no-response".into() };
+                *ex.dist.entry("http:daemon".into()).or_default().entry(format!("protocol-endpoint-post/ua{k}")).or_default().entry(outcome).or_default() += 1;
+            }
         }
     }
     if let Some(tx) = daemon.exit.take() { let _ = tx.send(()); }
